@@ -224,8 +224,19 @@ fn run_all(text: &str) -> Vec<(&'static str, String, String)> {
     out
 }
 
-fn case_text(workload: &str, k: u64, rng: &Rng, acc: &mut Acc, corpus: &[corpus::Prog], cat: &[(String, String)]) -> Option<(String, String)> {
+fn case_text(workload: &str, k: u64, rng: &Rng, acc: &mut Acc, corpus: &[corpus::Prog], cat: &[(String, String)], forms: &[String]) -> Option<(String, String)> {
     match workload {
+        "degenerate-forms" => match crate::degen::file(k, rng, forms) {
+            Some((n, t)) => {
+                acc.cov(if n.contains("systematic") { "degenerate:systematic-files" } else { "degenerate:nested-files" });
+                acc.cov_n("degenerate:statements", t.matches(";\n").count() as u64);
+                Some((n, t))
+            }
+            None => {
+                acc.cov("degenerate:file-without-any-parseable-statement");
+                None
+            }
+        },
         "catalogue" => {
             let (n, t) = cat.get(k as usize)?;
             if dets::parses(t) {
@@ -274,7 +285,7 @@ fn case_text(workload: &str, k: u64, rng: &Rng, acc: &mut Acc, corpus: &[corpus:
                 1 => {
                     let mut pre = vec![];
                     for s in ["pragma", "experimental", "ABIEncoderV2", ";"] {
-                        pre.push(crate::gast::Tok { s: s.to_string(), ws_only_before: s != "pragma" });
+                        pre.push(crate::gast::Tok { s: s.to_string(), ws_only_before: s != "pragma", glue_ok: s == ";" });
                     }
                     pre.extend(toks);
                     toks = pre;
@@ -308,6 +319,7 @@ pub fn worker(args: &[String]) -> i32 {
     let hi: u64 = args[3].parse().unwrap();
     let corpus = corpus::load();
     let cat = catalogue();
+    let forms = if workload == "degenerate-forms" { crate::degen::depth1() } else { vec![] };
     let stdout = std::io::stdout();
     // CPU budget per case: a case normally needs milliseconds of CPU; 60 CPU-seconds (process time, not wall clock)
     // without a result is reported as a missing result for that case
@@ -337,7 +349,7 @@ pub fn worker(args: &[String]) -> i32 {
         }
         let mut acc = Acc::default();
         let rng = Rng::new(seed, &format!("C04/{}", workload), k);
-        let res = match case_text(&workload, k, &rng, &mut acc, &corpus, &cat) {
+        let res = match case_text(&workload, k, &rng, &mut acc, &corpus, &cat, &forms) {
             Some((name, text)) => {
                 let panics = run_all(&text);
                 json!({"k": k, "name": name, "evals": 30, "bytes": text.len(),
@@ -505,7 +517,7 @@ pub fn run(ctx: &Ctx) -> i32 {
     let mut meta = Meta::new(
         "parser-accepted programs: a hostile catalogue (missing/odd pragmas, free functions, file-level items, no-argument calls of well-known names, literals up to 78 digits and with exponents, \
          0..1000 functions/contracts before a constructor, old-style functions, modifier shapes, nesting depth up to 64 of parentheses/blocks/unchecked/ternaries/indexes/ifs/prefix operators/powers/calls), \
-         hostile generated programs, corpus mutants with pragmas removed. Each case runs all 30 analyze_for_* entry points under catch_unwind inside worker subprocesses of the release build and of a build with overflow checks. \
+         degenerate forms (every call of 40 well-known names with no argument / each of 74 odd literals and names as its argument, every binary operator over those, prefix/postfix/index/slice/member/ternary forms, all systematically, then nested once or twice more at random; in 12 statement contexts under 7 pragmas), hostile generated programs, corpus mutants with pragmas removed. Each case runs all 30 analyze_for_* entry points under catch_unwind inside worker subprocesses of the release build and of a build with overflow checks. \
          evaluation = one (program, detector, build) call; non-trivial = parser-accepted program; distinct by (workload, program name)",
     );
     let release = std::env::current_exe().map(|p| p.to_string_lossy().to_string()).unwrap_or_default();
@@ -515,7 +527,8 @@ pub fn run(ctx: &Ctx) -> i32 {
         acc.inconclusive(format!("overflow-checked build of the harness not found at {} (run ./check C04 or ./setup.sh)", chk));
     }
     let ncat = catalogue().len() as u64;
-    let plans: Vec<(&str, u64)> = vec![("catalogue", ncat), ("hostile-generated", ctx.tier.pick(1200, 120000)), ("corpus-mutants", ctx.tier.pick(400, 40000))];
+    let nsys = crate::degen::systematic_files();
+    let plans: Vec<(&str, u64)> = vec![("catalogue", ncat), ("degenerate-forms", nsys + ctx.tier.pick(150, 30000)), ("hostile-generated", ctx.tier.pick(1200, 120000)), ("corpus-mutants", ctx.tier.pick(400, 40000))];
     for (workload, n) in plans {
         let shard = ((n + 31) / 32).max(1);
         let nshards = (n + shard - 1) / shard;
